@@ -1818,6 +1818,57 @@ def oracle_prompt_consent(r):
     return None
 
 
+def oracle_equal_untouched(r):
+    """an entry that is the same on both sides - a folder; a file with the same time and length while same-time files are skipped; a link
+    with the same text (and kind, where the destination tells kinds apart) - and that lies beneath folders present on both sides is sent no
+    deleting and no creating command, whatever the arrival order of the listings (what is equal is left alone: C04/C13)"""
+    sc, d = r['sc'], r['impl_r'].get('dest', [])
+    sa = sides_asked(sc)
+    if not (sa[0] and sa[1]):
+        return None
+    src, dst = effective_src_listing(sc), effective_dest_listing(sc)
+    diff = bool(sc.dest_reply[2]) if sc.dest_reply[0] == 'R' else False
+    same_beh = sc.beh[2]
+    touched = {}
+    for c in d:
+        n = cmd_name(c)
+        if n.startswith('Delete') or n in ('CreateFolder', 'CreateSymlink', 'CreateOrUpdateFile'):
+            touched.setdefault(cmd_path(c), c)
+    if sc.dry:
+        # a dry run sends nothing: what it says it would do is judged instead
+        import re as _re
+        root = sc.dest_root.rstrip('/\\')
+        for hx in r['impl_r'].get('log', []):
+            try:
+                line = bytes.fromhex(hx).decode(errors='replace')
+            except ValueError:
+                continue
+            m = _re.match(r"Would (delete dest \w+|create dest \w+) '(.*)'$", line, _re.S) or _re.match(r"Would (copy) source file '.*' => dest file '(.*)'$", line, _re.S)
+            if m and m.group(2).startswith(root + '/'):
+                what = 'Delete' if m.group(1).startswith('delete') else ('CreateOrUpdateFile' if m.group(1) == 'copy' else 'Create' + m.group(1).split()[-1].capitalize())
+                touched.setdefault(m.group(2)[len(root) + 1:], f'{what}({m.group(2)[len(root) + 1:]!r}) [announced by the dry run: {line!r}]')
+    for p, sdet in src.items():
+        ddet = dst.get(p)
+        if ddet is None or p not in touched or p == '':
+            continue
+        parts = p.split('/')
+        if any(src.get('/'.join(parts[:k])) != 'D' or dst.get('/'.join(parts[:k])) != 'D' for k in range(1, len(parts))):
+            continue
+        equal = False
+        if sdet == 'D' and ddet == 'D':
+            equal = True
+        elif sdet.startswith('F:') and ddet.startswith('F:'):
+            equal = sdet == ddet and same_beh == 's'
+            if not equal and cmd_name(touched[p]).startswith('Delete'):
+                return f'{touched[p]} sent although both sides hold a file at {p!r} (a file is overwritten, never deleted)'
+        elif sdet.startswith('L:') and ddet.startswith('L:'):
+            _, sk, st = sdet.split(':', 2); _, dk, dt = ddet.split(':', 2)
+            equal = st == dt and (not diff or sk == dk)
+        if equal:
+            return f'{touched[p]} sent although {p!r} is the same on both sides (source {sdet}, destination {ddet}) and lies beneath folders present on both sides'
+    return None
+
+
 def oracle_failure_reported(r):
     if r['faulty'] and r['impl_r'].get('res') == 'ok':
         return 'the destination doer answered a command with an error but the run ended ok'
@@ -1968,7 +2019,7 @@ def general_l2(run, n=None, label='general-traces'):
     global GENERIC_L2_ORACLES
     if GENERIC_L2_ORACLES is None:
         GENERIC_L2_ORACLES = [('source-read-only', oracle_src_readonly), ('ancestors', oracle_ancestors), ('dry-run-read-only', oracle_dry),
-                              ('consent-error-untouched', oracle_consent_error_untouched), ('behaviours', oracle_consent_behaviours), ('prompt-consent', oracle_prompt_consent),
+                              ('consent-error-untouched', oracle_consent_error_untouched), ('behaviours', oracle_consent_behaviours), ('prompt-consent', oracle_prompt_consent), ('equal-untouched', oracle_equal_untouched),
                               ('failure-reported', oracle_failure_reported), ('summary', oracle_summary), ('relay', oracle_relay),
                               ('failed-delete-no-creation', oracle_failed_delete_no_creation), ('no-command-through-link', oracle_no_command_through_link),
                               ('same-filters', oracle_same_filters), ('order', oracle_order)]
